@@ -44,7 +44,47 @@ let ip_of f = match f with
   | _ -> failwith "ip"
 let str s = List.init (String.length s) (fun i -> n_of_int (Char.code s.[i]))
 
+
+let ints_of s = if s = "-" then [] else List.map int_of_string (String.split_on_char ',' s)
+let cyc l i = List.nth l (i mod List.length l)
+let rec concat_all = function [] -> [] | x :: l -> x @ concat_all l
+
+(* chunks a source with the given short-read schedule hands to an internal buffer of the given size *)
+let chunks_of (isize : int) (sched : int list) (src : n list) : n list list =
+  let rec go i rem = match rem with
+    | [] -> []
+    | _ -> let k = min isize (if sched = [] then isize else cyc sched i) in
+      let k = max 1 k in take k rem :: go (i + 1) (drop k rem) in
+  go 0 src
+
+let run_ascii (f : string list) : (string * string) option =
+  match f with
+  | ["aup"; isz; sizes; sched; t] ->
+    let src = bytes_of_hex t in
+    let isz = int_of_string isz and sizes = ints_of sizes and sched = ints_of sched in
+    let cks = chunks_of isz sched src in
+    let need = 2 * List.length src + 2 in
+    let memo = List.map (fun k -> (k, nat_of_int k)) (List.sort_uniq compare sizes) in
+    let szl = List.init need (fun i -> List.assoc (cyc sizes i) memo) in
+    let ((os, stopped), _) = drain szl (istart cks) in
+    let m = hex_of_bytes (concat_all os) ^ " | " ^ (if stopped then "eof" else "NOT-STOPPED") ^ " " ^
+            String.concat "," (List.map hex_of_bytes os) in
+    Some (m, hex_of_bytes (to_crlf src))
+  | ["adown"; parts; t] ->
+    let src = bytes_of_hex t in
+    let parts = ints_of parts in
+    let rec cut ps rem = match ps with
+      | [] -> if rem = [] then [] else [rem]
+      | p :: ps' -> take p rem :: cut ps' (drop p rem) in
+    let blocks = cut parts src in
+    let ev = owrites false blocks in
+    let show = function SinkWrite b -> "W:" ^ hex_of_bytes b | SinkFlush -> "F" in
+    Some (hex_of_bytes (sink_content ev) ^ " | " ^ String.concat "," (List.map show ev),
+          hex_of_bytes (from_crlf src))
+  | _ -> None
+
 let run (f : string list) : string * string =
+  match run_ascii f with Some r -> r | None ->
   match f with
   | ["pasv"; t] ->
     let s = bytes_of_hex t in
